@@ -356,3 +356,36 @@ Proof.
     apply entry_never_moves; assumption.
   - exact Fin.
 Qed.
+
+(* ---- and complete: the executable check accepts every pair of states that satisfies step_ok, so it cannot raise
+   an alarm on a directory history the theorems allow ---- *)
+Lemma has_entry_true l e : (exists j, at_ l j e) -> has_entry l e = true.
+Proof.
+  intros [j A]. unfold has_entry. apply existsb_exists. exists (Some e). split; [eapply nth_error_In; exact A|].
+  apply slot_eqb_eq. reflexivity.
+Qed.
+Lemma has_entry_false_iff l e : has_entry l e = false <-> forall j, ~ at_ l j e.
+Proof.
+  split; [apply has_entry_false|]. intros H. destruct (has_entry l e) eqn:E; [|reflexivity].
+  unfold has_entry in E. apply existsb_exists in E as (s & Hin & Hs). destruct s as [e'|]; [|discriminate].
+  apply slot_eqb_eq in Hs. subst e'. apply In_nth_error in Hin as [j Hj]. exfalso. exact (H j Hj).
+Qed.
+Lemma stays_complete a : forall b ball,
+  (forall k e, at_ a k e -> at_ b k e \/ forall j, ~ at_ ball j e) -> stays a b ball = true.
+Proof.
+  induction a as [|[e0|] ra IH]; intros b ball H; simpl; [reflexivity| |].
+  - apply andb_true_iff. split.
+    + destruct (H 0 e0 eq_refl) as [A|N].
+      * destruct b as [|[e'|] rb]; try (unfold at_ in A; simpl in A; discriminate).
+        unfold at_ in A. simpl in A. injection A as ->. apply orb_true_iff. left. apply slot_eqb_eq. reflexivity.
+      * assert (X : negb (has_entry ball e0) = true) by (apply negb_true_iff, has_entry_false_iff; exact N).
+        destruct b as [|[e'|] rb]; [exact X| |exact X]. apply orb_true_iff. right. exact X.
+    + apply IH. intros k e A. destruct (H (S k) e A) as [X|X]; [|right; exact X]. left.
+      destruct b; [unfold at_ in X; simpl in X; discriminate|exact X].
+  - apply IH. intros k e A. destruct (H (S k) e A) as [X|X]; [|right; exact X]. left.
+    destruct b; [unfold at_ in X; simpl in X; discriminate|exact X].
+Qed.
+Theorem step_ok_b_complete a b : step_ok a b -> step_ok_b a b = true.
+Proof.
+  intros [L S]. unfold step_ok_b. apply andb_true_iff. split; [apply Nat.leb_le; exact L|apply stays_complete; exact S].
+Qed.
